@@ -69,8 +69,15 @@ def distinct : List String → Bool
   | [] => true
   | n :: rest => !rest.contains n && distinct rest
 
+/-- the declaration with its variables renamed to their positions `0, 1, …` (the rewrite only
+moves variables around, it never looks at their names) -/
+def tagPositions : Stmt → Stmt
+  | .localAssign kind ns vs =>
+    .localAssign kind (ns.zipIdx.map fun p => match p with | (.mk _ ty, i) => .mk (toString i) ty) vs
+  | s => s
+
 def reordersDuplicates (api : EvalApi) (s : Stmt) : Bool :=
-  namesOf (processLocal api s) != namesOf s && !distinct (namesOf s)
+  namesOf (processLocal api (tagPositions s)) != namesOf (tagPositions s) && !distinct (namesOf s)
 
 def regionProcessor (api : EvalApi) : Processor Bool :=
   { stmtNode := fun s st => (s, st || reordersDuplicates api s) }
